@@ -106,12 +106,18 @@ func initNewMultiColumnReader(segKey string, colFDs map[string]*os.File,
 	var err error
 	// todo blockSummaries don't need to be passed, we could just pick from this
 	// below function
-	if writer.IsSegKeyUnrotated(segKey) {
+	isUnrotated := writer.IsSegKeyUnrotated(segKey)
+	if isUnrotated {
 		allBmi, err = writer.GetBlockSearchInfoForKey(segKey)
 		if err != nil {
-			return nil, fmt.Errorf("InitSharedMultiColumnReaders: failed to get allBmi for unrotated segKey %s; err=%v", segKey, err)
+			// The segment may have been rotated between the check above and this lookup.
+			if writer.IsSegKeyUnrotated(segKey) {
+				return nil, fmt.Errorf("InitSharedMultiColumnReaders: failed to get allBmi for unrotated segKey %s; err=%v", segKey, err)
+			}
+			isUnrotated = false
 		}
-	} else {
+	}
+	if !isUnrotated {
 		allBmi, _, err = segmetadata.GetSearchInfoAndSummary(segKey)
 		if err != nil {
 			return nil, fmt.Errorf("InitSharedMultiColumnReaders: failed to get allBmi segKey: %s. Error: %+v", segKey, err)
